@@ -757,21 +757,50 @@ Qed.
 Lemma Inv2X_st0 t : Inv2X t [] [] st0.
 Proof. split; intros x H; rewrite getb_nil in H; discriminate. Qed.
 
+Lemma getb_andl a : forall b x, getb (andl a b) x = getb a x && getb b x.
+Proof.
+  induction a as [|u r IH]; intros b x.
+  - destruct x; reflexivity.
+  - destruct b as [|v s].
+    + destruct x; simpl; rewrite andb_false_r; reflexivity.
+    + destruct x as [|x]; simpl; [reflexivity | apply IH].
+Qed.
+Lemma Inv2X_weaken t D X D' X' st : (forall x, getb D' x = true -> getb D x = true) -> (forall x, getb X' x = true -> getb X x = true) ->
+  Inv2X t D X st -> Inv2X t D' X' st.
+Proof. intros HD HX [ID IX]. split; intros x Hx; [apply ID, HD, Hx | apply IX, HX, Hx]. Qed.
+(* what refine2 returns is contained in what it was given and is preserved by the body *)
+Lemma refine2_sound en body : In (tau en) ctxs -> forall fuel D X Dm Xm, refine2 fuel en body D X = Some (Dm, Xm) ->
+  (forall st, Inv2X (tau en) D X st -> Inv2X (tau en) Dm Xm st) /\
+  (forall st, Inv2X (tau en) Dm Xm st -> Inv2X (tau en) Dm Xm (exec en st body)).
+Proof.
+  intros Ht. induction fuel as [|f IH]; intros D X Dm Xm H; simpl in H;
+    destruct (exact_block2 en D X body) as [D' X'] eqn:E; destruct (subb D D' && subb X X') eqn:S.
+  - injection H as <- <-. apply andb_prop in S. destruct S as [SD SX]. split; [auto|].
+    intros st HI. destruct (block2X_sound en body Ht D X st D' X' HI E) as [HD HX]. split.
+    + intros x Hx. apply HD. eapply subb_spec; eauto.
+    + intros x Hx. apply HX. eapply subb_spec; eauto.
+  - discriminate H.
+  - injection H as <- <-. apply andb_prop in S. destruct S as [SD SX]. split; [auto|].
+    intros st HI. destruct (block2X_sound en body Ht D X st D' X' HI E) as [HD HX]. split.
+    + intros x Hx. apply HD. eapply subb_spec; eauto.
+    + intros x Hx. apply HX. eapply subb_spec; eauto.
+  - destruct (IH _ _ _ _ H) as [W P]. split; [|exact P].
+    intros st HI. apply W. apply (Inv2X_weaken (tau en) D X); [| |exact HI].
+    + intros x Hx. rewrite getb_andl in Hx. apply andb_prop in Hx. exact (proj1 Hx).
+    + intros x Hx. rewrite getb_andl in Hx. apply andb_prop in Hx. exact (proj1 Hx).
+Qed.
 Theorem all_exact2_sound en p want : In (tau en) ctxs -> all_exact2 en p want = true ->
   forall k o, In k want -> nth_error (p_outs p) k = Some o -> forall n, eval en (run en p n) (snd o) = tau en.
 Proof.
   intros Ht Hok k o Hk Ho n. unfold all_exact2 in Hok.
   destruct (exact_block2 en [] [] (p_init p)) as [D1 X1] eqn:E1.
-  destruct (exact_block2 en D1 X1 (p_body p)) as [D2 X2] eqn:E2.
-  apply andb_prop in Hok. destruct Hok as [Hsub Houts]. apply andb_prop in Hsub. destruct Hsub as [HsD HsX].
+  destruct (refine2 6 en (p_body p) D1 X1) as [[Dm Xm]|] eqn:ER; [|discriminate Hok].
+  destruct (refine2_sound en (p_body p) Ht _ _ _ _ _ ER) as [W P].
   assert (I1 : Inv2X (tau en) D1 X1 (exec en st0 (p_init p))) by (eapply block2X_sound; [exact Ht | apply Inv2X_st0 | exact E1]).
-  assert (In_ : Inv2X (tau en) D1 X1 (run en p n)).
-  { unfold run. apply iter_inv; [|exact I1]. intros st HI.
-    destruct (block2X_sound en (p_body p) Ht D1 X1 st D2 X2 HI E2) as [HD HX]. split.
-    - intros x Hx. apply HD. eapply subb_spec; eauto.
-    - intros x Hx. apply HX. eapply subb_spec; eauto. }
-  rewrite forallb_forall in Houts. specialize (Houts k Hk). rewrite Ho in Houts. apply andb_prop in Houts.
-  destruct Houts as [Oe Xe]. destruct (expr2X_sound en (run en p n) D1 X1 (snd o) Ht In_ Oe) as [_ H]. apply H, Xe.
+  assert (In_ : Inv2X (tau en) Dm Xm (run en p n)).
+  { unfold run. apply iter_inv; [exact P | exact (W _ I1)]. }
+  rewrite forallb_forall in Hok. specialize (Hok k Hk). rewrite Ho in Hok. apply andb_prop in Hok.
+  destruct Hok as [Oe Xe]. destruct (expr2X_sound en (run en p n) Dm Xm (snd o) Ht In_ Oe) as [_ H]. apply H, Xe.
 Qed.
 Theorem ext_exact_any_sound p want : ext_exact_any p want = true -> forall t m, In t ctxs -> In m mask_dts ->
   forall k o, In k want -> nth_error (p_outs p) k = Some o -> forall n, eval (mkenv t m) (run (mkenv t m) p n) (snd o) = t.
